@@ -65,6 +65,8 @@ def run_case(case, ctx):
         d, n = 2, [m, m + 1]
     Y, rt = gen.exact_rank_tt(rng, n, rho)
     scale = 10.0 ** rng.uniform(-3, 3)
+    if rng.random() < 0.15:
+        scale = 10.0 ** rng.uniform(100, 250)      # huge but representable
     Y[int(rng.integers(d))] *= scale
     T = np.asarray(ref.dense_ld(Y), dtype=float)
     sseed = int(rng.integers(1 << 30))
